@@ -31,9 +31,12 @@ pub enum Regime {
     /// an almost flat level (relative jitter 1e-6) with rare spikes 1000x higher: after a spike leaves a
     /// window, what is left is tiny true dispersion plus the spike's rounding residue
     QuietSpikes,
+    /// random walk on a price grid (tick = m/4, steps of -2..=2 ticks): exact ties between neighbours and
+    /// across a window, new lows/highs arriving among duplicates of the old one — what quantised quotes do
+    Ticks,
 }
 
-pub const BAND_REGIMES: [Regime; 12] = [
+pub const BAND_REGIMES: [Regime; 13] = [
     Regime::Walk,
     Regime::AltExtremes,
     Regime::Spikes,
@@ -46,6 +49,7 @@ pub const BAND_REGIMES: [Regime; 12] = [
     Regime::LogUniform,
     Regime::BadTicks,
     Regime::QuietSpikes,
+    Regime::Ticks,
 ];
 
 impl Regime {
@@ -125,6 +129,15 @@ impl BandGen {
                 } else {
                     lo * 700.0
                 }
+            }
+            Regime::Ticks => {
+                let tick = lo * 0.25;
+                if self.i == 1 {
+                    self.cur = lo * (2 + r.below(40)) as f64;
+                }
+                let step = r.below(5) as f64 - 2.0;
+                self.cur = (self.cur + step * tick).clamp(lo, hi);
+                self.cur
             }
             Regime::Uniform => r.uniform(lo, hi),
             Regime::Integer => lo * (1 + r.below(12)) as f64,
